@@ -3,6 +3,8 @@
 import sys, os, re, time
 sys.path.insert(0, os.path.dirname(os.path.dirname(os.path.abspath(__file__))))
 sys.dont_write_bytecode = True
+from checks import extract as _ex
+_ex.ensure_facts('dev', quiet=True)
 from checks.facts import Facts
 from checks import panics, core
 t0 = time.time()
